@@ -1295,6 +1295,11 @@ class C13(Prop):
     def after_run(self, hist, w):
         if not w.failed_events:
             return
+        if any(v.get("property") == "C13" for v in w.known_hits):
+            # a listed finding already says that one failed statement of this run DID leave a trace;
+            # the twin would only report its consequence a second time
+            w.count("twin.skipped_after_known_finding")
+            return
         ev2 = _filter_events(hist["events"], set(w.failed_events))
         tw = run_twin(hist, ev2)
         if tw.failed_events:
